@@ -22,7 +22,7 @@ class Item(HasTraits):
         return not self.__eq__(other)
 
     def __hash__(self):
-        return hash(("Item", self.uid))
+        return 1000003 * self.uid + 29
 
     def __repr__(self):
         return "Item#%d" % self.uid
